@@ -513,6 +513,15 @@ class FnTranslator:
         self.note_ret(t)
         return "(Some %s)" % e if self.has_raise else e
 
+    def ret_mutated(self, env):
+        """`return` without a value (or falling off the end) in a function whose effect is the mutation of argument arrays"""
+        if not self.mutated:
+            raise Unsupported("function returns nothing and mutates nothing")
+        e = self.tup(self.mutated)
+        t = tuple(env[m] for m in self.mutated) if len(self.mutated) > 1 else env[self.mutated[0]]
+        self.note_ret(t)
+        return "(Some %s)" % e if self.has_raise else e
+
     def note_ret(self, t):
         if getattr(self, "ret_type", None) is None:
             self.ret_type = t
@@ -533,7 +542,7 @@ class FnTranslator:
             return self.block(rest, env, k)
         if isinstance(s, ast.Return):
             if s.value is None:
-                raise Unsupported("bare return")
+                return self.ret_mutated(env)
             if isinstance(s.value, ast.Tuple):
                 parts = [self.expr(e, env) for e in s.value.elts]
                 if self.mutated:
@@ -893,6 +902,8 @@ class FnTranslator:
                     raise Unsupported("numba signature " + sig)
 
         def fall_off(e2):
+            if self.mutated and getattr(self, "ret_type", None) in (None, tuple(e2[m] for m in self.mutated) if len(self.mutated) > 1 else e2[self.mutated[0]]):
+                return self.ret_mutated(e2)
             raise Unsupported("function may end without return")
         body = self.block(fn.body, env, fall_off)
         rt = ("opt", self.ret_type) if self.has_raise else self.ret_type
